@@ -171,6 +171,13 @@ class Table:
                 return
             if isinstance(s, ast.If):
                 test = self.canon(s.test, fi, env)
+                known = self._static_truth(test, fi)
+                if known is True:
+                    block(list(s.body) + rest, dict(env), conds, cont)
+                    return
+                if known is False:
+                    block(list(s.orelse) + rest, dict(env), conds, cont)
+                    return
                 block(s.body, dict(env), conds + [(test, True)], lambda e, c: block(rest, e, c, cont))
                 block(s.orelse, dict(env), conds + [(test, False)], lambda e, c: block(rest, e, c, cont))
                 return
@@ -223,6 +230,23 @@ class Table:
                 if not (isinstance(s, ast.Expr) and isinstance(s.value, ast.Constant))]
         block(body, dict(env0), [], fall)
         return rows
+
+    def _static_truth(self, test, fi):
+        """`<freshly constructed object> is None` is False (is not None: True); everything else is unknown."""
+        if isinstance(test, ast.Compare) and len(test.ops) == 1 and isinstance(test.ops[0], (ast.Is, ast.IsNot)) \
+                and isinstance(test.comparators[0], ast.Constant) and test.comparators[0].value is None and isinstance(test.left, ast.Call):
+            fn = test.left.func
+            name = fn.id if isinstance(fn, ast.Name) else (fn.attr if isinstance(fn, ast.Attribute) else "")
+            qn = norm(fn)
+            is_ctor = qn in self.ctx.prog.classes or qn.endswith(".__init__") and qn[: -len(".__init__")] in self.ctx.prog.classes
+            if not is_ctor and name and name[:1].isupper():
+                try:
+                    is_ctor = bool(self.ctx.types.resolve_call(test.left, fi).ctor)
+                except Exception:
+                    is_ctor = False
+            if is_ctor:
+                return isinstance(test.ops[0], ast.IsNot)
+        return None
 
     def _assign(self, target, val, env):
         if isinstance(target, ast.Name):
